@@ -166,6 +166,7 @@ func runC05(r *R) {
 		runErr   error
 		runAt    time.Duration
 		waitAt   time.Duration = -1
+		waitSq   uint64
 		t0       time.Time
 		metrics  engine.Metrics
 		cancelT  time.Duration = -1
@@ -268,6 +269,7 @@ func runC05(r *R) {
 		select {
 		case <-waited:
 			waitAt = time.Since(t0)
+			waitSq = simrt.Seq()
 		case <-time.After(G):
 		}
 	})
@@ -394,6 +396,20 @@ func runC05(r *R) {
 	}
 	if len(engineLeaks) > 0 {
 		r.Fail("goroutine-leak/"+leakSite(engineLeaks[0]), "%d engine goroutine(s) still alive %v after the run ended: %v; %s", len(engineLeaks), 30*time.Second, engineLeaks, desc)
+	}
+	if waitAt >= 0 {
+		// "waiting for the engine's background tasks returns" - and then they are over: nothing of the run may start or
+		// continue after Wait has returned
+		for pi, rt := range rts {
+			for _, e := range rt.log.Snapshot() {
+				if e.Seq > waitSq {
+					switch e.Kind {
+					case "gun-new", "warmup", "gun-bind", "prov-run-in", "aggr-run-in", "shoot-in", "acquire":
+						r.Fail("activity-after-wait/"+e.Kind, "pool %d: %s happened after Engine.Wait had returned (at %v): the engine's background tasks were not over; %s", pi, e.Kind, waitAt, desc)
+					}
+				}
+			}
+		}
 	}
 	if waitAt >= 0 && len(engineLeaks) == 0 {
 		if s, f := metrics.InstanceStart.Get(), metrics.InstanceFinish.Get(); s != f {
